@@ -555,11 +555,10 @@ def cases_for(ctx: Ctx) -> t.List[dict]:
                 c = json.load(open(os.path.join(corpus_dir, fn)))
                 c["origin"] = "corpus:" + fn
                 cases.append(c)
-    depth = 3 if ctx.thorough else 2
-    reps = 2 if ctx.thorough else 2
+    depth = 4 if ctx.thorough else 2  # the property names length 4 for the exhaustive part
     for L in range(1, depth + 1):
         for kinds in itertools.product(KINDS, repeat=L):
-            for _ in range(reps if L > 1 else 4):
+            for _ in range(4 if L == 1 else (2 if L == 2 else 1)):
                 c = gen_program(ctx.rng, kinds)
                 if c:
                     c["origin"] = f"exhaustive-kinds-L{L}"
